@@ -138,7 +138,7 @@ class Result:
     def add_viol(self, v):
         self.viol_counts[v.sig] += 1
         lst = self.viols.setdefault(v.sig, [])
-        if len(lst) < MAX_PER_SIG:
+        if len(lst) < 40:
             lst.append(v)
 
     def cell(self, fam, cell, n=1):
@@ -285,7 +285,8 @@ def finish(res, tier, seed, level, t0, technique=''):
     unlisted = 0
     commit = None
     for sig in sorted(res.viols):
-        vs = res.viols[sig]
+        # simplest witness first
+        vs = sorted(res.viols[sig], key=lambda v: len(json.dumps(v.scene, default=str)))[:MAX_PER_SIG]
         hit = next((k for k in known if fnmatch.fnmatchcase(sig, k['signature'])), None)
         if hit is not None:
             print('KNOWN-FINDING: property=%s %s [%s] (%d cases)' % (prop, hit.get('what', ''), sig, res.viol_counts[sig]))
